@@ -51,6 +51,9 @@ type opVariant struct {
 
 func num(s string) *gen.Lit { return gen.NumLit(s, s) }
 
+// canonicalOnly (with reduced) selects one or two canonical variants per operator kind for the deep sweep.
+var canonicalOnly bool
+
 func c02Variants(reduced bool) []opVariant {
 	c12 := func(sch []string) (string, string) {
 		if len(sch) == 1 {
@@ -197,6 +200,17 @@ func c02Variants(reduced bool) []opVariant {
 	}
 	if !reduced {
 		return all
+	}
+	if canonicalOnly {
+		keepNames := map[string]bool{"where-gt": true, "project-rename": true, "extend": true, "summarize-count-by": true,
+			"sort-asc": true, "take-1": true, "top-2-asc": true, "count": true, "as": true, "render": true, "limit-2": true, "sort": true}
+		var out []opVariant
+		for _, v := range all {
+			if keepNames[v.name] {
+				out = append(out, v)
+			}
+		}
+		return out
 	}
 	keepNames := map[string]bool{"where-gt": true, "project-rename": true, "project-swap-names": true, "extend": true, "summarize-count-by": true, "summarize-max": true,
 		"sort": true, "sort-asc": true, "take-1": true, "limit-2": true, "take-10": true, "top-1": true, "count": true, "as": true, "render": true}
@@ -434,6 +448,16 @@ func c02Main(r *run.Runner) {
 			}
 		})
 	}
+	// deep and narrow: every sequence of d+2 operators over one or two canonical variants per operator kind
+	canonicalOnly = true
+	deep := c02Variants(true)
+	canonicalOnly = false
+	n3 := forEachSequence(r, "operator-sequences-deep", d+2, deep, func(w *run.Worker, p *gen.Pipeline, src string) {
+		if len(p.Ops) >= d+1 {
+			relCheck(w, get(w), "C02", p, src, small, nil)
+		}
+	})
+	r.Extra["deep"] = map[string]any{"depth": d + 2, "variants": len(deep), "sequences": n3}
 	r.Extra["bounds"] = map[string]any{"depth": d, "variants": len(c02Variants(false)), "sequences": n, "databases": len(dbs), "max_rows": m,
 		"reduced_depth": d + 1, "reduced_variants": len(c02Variants(true)), "reduced_sequences": n2}
 	r.Sample("T | take 1 | sort by a | where a > 1")
